@@ -197,6 +197,25 @@ func init() {
 		}
 		measure := []string{"raw", "snp"}[rng.Intn(2)]
 		n := []int{0, 1, 2, 3, 5, 8, 40}[rng.Intn(7)]
+		exactd := -1
+		if i%5 == 4 {
+			// raw distances j/10 (or j/20) for every j, threshold -d exactly on one of them
+			wd := 10 * (1 + rng.Intn(2))
+			a := randSeq(rng, wd, 0.0)
+			nq = 1
+			qs = []interface{}{symList(a)}
+			ts = make([]interface{}, 0, wd+1)
+			for j := 0; j <= wd; j += 1 + rng.Intn(2) {
+				b := []byte(a)
+				for x := 0; x < j; x++ {
+					b[x] = "ACGT"[(strings.IndexByte("ACGT", b[x])+1)%4]
+				}
+				ts = append(ts, symList(string(b)))
+			}
+			measure = "raw"
+			exactd = 100 * (1 + rng.Intn(9))
+			n = []int{0, 0, 2, 40}[rng.Intn(4)]
+		}
 		if i%5 == 2 {
 			measure = "snp"
 			n = []int{0, 0, 1, 2}[rng.Intn(4)]
@@ -210,6 +229,9 @@ func init() {
 			}
 		}
 		// layout must not matter: targets (and queries) wrapped over several lines, CRLF
+		if exactd >= 0 {
+			d = exactd
+		}
 		return map[string]interface{}{"id": "rand6-" + itoa(i), "queries": qs, "targets": ts,
 			"measure": measure, "n": n, "d": d, "table": rng.Intn(2) == 0, "threads": []int{1, 2, 4, 0}[rng.Intn(4)], "mono": false,
 			"wrapt": []int{0, 0, 3, 5, 8, 60}[rng.Intn(6)], "wrapq": []int{0, 0, 4}[rng.Intn(3)], "crlft": rng.Intn(5) == 0}
@@ -381,6 +403,9 @@ func init() {
 	// updown: random alignments around an A/C/G/T reference with shared SNPs, multiple hits and ambiguity tracts
 	randGens["updown"] = func(rng *rand.Rand, i int) map[string]interface{} {
 		w := 12 + rng.Intn(40)
+		if i%8 == 5 {
+			w = 30 + rng.Intn(20) // (masked vectors below need room for 10 or 20 adjacent SNPs)
+		}
 		ref := randSeq(rng, w, 0.0)
 		lineage := mutate(rng, ref, 0.08, 0.0)
 		mk := func() string {
@@ -458,8 +483,10 @@ func init() {
 		}
 		if masked {
 			// query: the reference with SNPs at k adjacent sites; every other target: the query with m of them under an N tract
-			k := 4 + rng.Intn(4)
+			// k = 10 or 20 SNPs, so that the masked fraction m/k is a multiple of 0.05 and --threshold-pair can be set exactly on it
+			k := 10 * (1 + rng.Intn(2))
 			a := rng.Intn(w - k)
+			thr10 := 1 + rng.Intn(9) // --threshold-pair = thr10 / 10
 			qb := []byte(ref)
 			for j := a; j < a+k; j++ {
 				qb[j] = "ACGT"[(strings.IndexByte("ACGT", qb[j])+1)%4]
@@ -469,7 +496,12 @@ func init() {
 				if t%2 == 0 {
 					tb := append([]byte{}, qb...)
 					m := 2 + rng.Intn(k-1)
-					for j := a; j < a+m; j++ {
+					if t%4 == 0 {
+						m = thr10 * k / 10 // exactly on the threshold: "up to this proportion" keeps it
+					} else if t%4 == 2 && rng.Intn(2) == 0 {
+						m = thr10*k/10 + 1 // just over
+					}
+					for j := a; j < a+m && j < a+k; j++ {
 						tb[j] = 'N'
 					}
 					if rng.Intn(2) == 0 {
@@ -481,7 +513,7 @@ func init() {
 			}
 			o["push"], o["sizetotal"], o["sizeup"], o["sizedown"], o["sizeside"], o["sizesame"] = 0, 0, 0, 0, 0, 0
 			o["distall"] = 1 + rng.Intn(2)
-			o["thrnum"], o["thrtarget"], o["ignore"] = 4, 10000, []int{}
+			o["thrnum"], o["thrden"], o["thrtarget"], o["ignore"] = thr10, 10, 10000, []int{}
 		}
 		if crowded {
 			o["push"], o["sizetotal"], o["sizeup"], o["sizedown"], o["sizeside"], o["sizesame"] = 0, 0, 0, 0, 0, 0
@@ -517,6 +549,19 @@ func init() {
 			recs = append(recs, rec{name: name, seq: randSeq(rng, w, 0.2)})
 		}
 		b := renderFasta(recs, []int{0, 1, 3, 60}[rng.Intn(4)], rng.Intn(3) == 0)
+		if i%100 == 11 {
+			// valid alignments that do not fit the readers' buffers: 70,000 columns on one line, 4,090 on one line (the next header
+			// falls behind the first 4 kB), 6,000 and 29,903 columns wrapped at 60 / 70 - every reader reads them, and alike
+			shapes := [][2]int{{70000, 0}, {4090, 0}, {6000, 60}, {29903, 70}, {4100, 1000}}
+			sh := shapes[(i/100)%len(shapes)]
+			wide := []rec{{"s1", randSeq(rng, sh[0], 0.0)}, {"s2 wide", randSeq(rng, sh[0], 0.0)}, {"s3", randSeq(rng, sh[0], 0.0)}}
+			bw := renderFasta(wide, sh[1], (i/100)%2 == 1)
+			raw := make([]int, len(bw))
+			for k, x := range bw {
+				raw[k] = int(x)
+			}
+			return map[string]interface{}{"id": "randfa-wide-" + itoa(sh[0]) + "-" + itoa(sh[1]) + "-" + itoa(i), "raw": raw, "valid": 3}
+		}
 		if rng.Intn(5) == 0 {
 			b = []byte(strings.ToLower(string(b)))
 		}
